@@ -15,7 +15,7 @@ from ..source import get_source
 from ..grammar import get_grammar
 from ..emission import get_emission
 from ..runtime import get_runtime, may_complete_normally
-from ..finite import Evaluator, AV, Unknown, AbsRaise, const_av, truth, _Ret
+from ..finite import evaluator_for, Evaluator, AV, Unknown, AbsRaise, const_av, truth, _Ret
 from ..paths import parent_map, path_conditions
 from .common import check_plumbing
 
@@ -198,7 +198,7 @@ def r3(run: Run, rt):
 def r4_eval(run: Run, rt):
     """NETWORKDAYS decided by abstract evaluation (engine F): days are carried as day numbers whose weekday is known (day 0 is a
     Monday); the count of Monday-Friday dates of the inclusive interval minus the listed holidays, negated when reversed"""
-    from ..finite import Evaluator, AV, const_av, Unknown, AbsRaise
+    from ..finite import evaluator_for, Evaluator, AV, const_av, Unknown, AbsRaise
 
     def dt(n):
         return AV('datetime', val=('day', n))
@@ -215,7 +215,7 @@ def r4_eval(run: Run, rt):
         if fn is None:
             continue
         for a_, b_, h_, want, what in cases:
-            ev = Evaluator(cp.members, max_depth=8)
+            ev = evaluator_for(cp, max_depth=8)
             args = [dt(a_), dt(b_)] + ([h_] if h_ is not None else [])
             construct = f'_network_days[{cp.label}]/{what}'
             try:
